@@ -280,8 +280,20 @@ def run_history(rec, case):
     R = hist.Runner(sim)
 
     def V(key, msg):
-        rec.viol(key, msg + ' | server=%s pi=%s pt=%s boom=%r handlers=%r '
-                 'history=%s' % (srv, pi, pt, sorted(boom), hcfg,
+        if key.startswith('wrong-reason') and "'ping timeout'" in msg and \
+                getattr(sim, 'lost_wakeup_conns', None) and \
+                sim.lost_wakeup_conns():
+            # mechanism of known finding K15 (decided on the driver's own
+            # state, see SimW.lost_wakeup_conns): the real simple_websocket
+            # driver never told the server that the connection had ended
+            key = 'simple-websocket-lost-wakeup'
+            msg += ' [handler threads still blocked in receive() on ' \
+                'connections the driver has closed: %d]' % len(
+                    sim.lost_wakeup_conns())
+        rec.viol(key, msg + ' | server=%s%s pi=%s pt=%s boom=%r handlers=%r '
+                 'history=%s' % (srv, ' (real simple_websocket driver)'
+                                 if case.get('tws') and srv == 'T' else '',
+                                 pi, pt, sorted(boom), hcfg,
                                  R.witness(50)), case)
     try:
         causes_used = set()
